@@ -23,7 +23,7 @@ RULE = ("per module a problem generator over its problem format: nurikabe (0, -1
 ASSUMPTIONS = ["refs/pzpr.py implements the pzpr body grammar (number16, 4cell, circle, arrownumber16, border, room numbers, compass) as documented "
                "in DESIGN.md Appendix B", "pzpr yajilin numbers >= 16 use the direction+5 two-digit form"]
 MODULES = ["nurikabe", "masyu", "slitherlink", "sudoku", "nurimisaki", "yajilin", "heyawake", "lits", "norinori", "compass", "star_battle", "aquarium"]
-REQUIRED = ["c16.roundtrip_checked", "c16.pzpr_checked", "c16.head_checked", "c16.legacy_checked", "c16.nonsquare"] + ["c16.mod." + m for m in MODULES]
+REQUIRED = ["c16.roundtrip_checked", "c16.pzpr_checked", "c16.head_checked", "c16.legacy_checked", "c16.nonsquare", "c16.recorded_urls"] + ["c16.mod." + m for m in MODULES]
 
 
 def plan(tier):
@@ -346,8 +346,60 @@ def sudoku_gen(rng, h, w):
     raise NotImplementedError
 
 
+def recorded_urls(ctx):
+    """URLs recorded in the repository (bench/generator.py expectations, tests, module comments): the real decoder and the
+    independent pzpr decoder must read the same problem from each, and re-encoding must reproduce the URL."""
+    import glob
+    import os
+    import re
+
+    repo = os.environ.get("VERIF_REPO", "/repo")
+    urls = set()
+    for f in [os.path.join(repo, "bench", "generator.py")] + glob.glob(os.path.join(repo, "tests", "**", "*.py"), recursive=True) \
+            + glob.glob(os.path.join(repo, "cspuz", "puzzle", "*.py")):
+        try:
+            txt = open(f).read()
+        except OSError:
+            continue
+        urls.update(re.findall(r"https?://[A-Za-z0-9./_-]+/p(?:\.html)?\?[A-Za-z0-9/.+_-]+", txt))
+    table = {"masyu": (masyu.deserialize_masyu, masyu.serialize_masyu, whole(pzpr.circle)),
+             "mashu": (masyu.deserialize_masyu, None, whole(pzpr.circle)),
+             "nurimisaki": (nurimisaki.deserialize_nurimisaki, nurimisaki.serialize_nurimisaki, n16(-1, 0)),
+             "sudoku": (sudoku.deserialize_sudoku, sudoku.serialize_sudoku, n16(0, "?")),
+             "nurikabe": (nurikabe.deserialize_nurikabe, nurikabe.serialize_nurikabe, n16(0, -1)),
+             "slither": (slitherlink.deserialize_slitherlink, slitherlink.serialize_slitherlink, whole(pzpr.four_cell, blank=-1)),
+             "yajilin": (yajilin.deserialize_yajilin, yajilin.serialize_yajilin, yajilin_indep)}
+    for url in sorted(urls):
+        try:
+            name, cols, rows, rest = pzpr.split_url(url)
+        except Exception:
+            continue
+        if name not in table:
+            continue
+        dec, enc, indep = table[name]
+        ctx.count("c16.recorded_urls")
+        ctx.case(["recorded", url], nontrivial=True)
+        j = Judge(ctx, "recorded-" + name, url, rows, cols)
+        ok, prob = j.call("decode", dec, url)
+        if not ok or prob is None:
+            if ok:
+                j.fail("recorded-url-rejected", "a URL recorded in the repository is not decodable", url=url)
+            continue
+        try:
+            cells = indep("/".join(rest), rows * cols)
+            j.same("pzpr", [cells[y * cols:(y + 1) * cols] for y in range(rows)], prob, url)
+        except pzpr.Bad as e:
+            j.fail("pzpr", f"independent decoder rejects a recorded URL: {e}", url=url)
+        if enc is not None and url.startswith("https://puzz.link/p?"):
+            ok, url2 = j.call("encode", enc, prob)
+            if ok:
+                j.same("roundtrip", url2, url, url)
+
+
 def run(ctx):
     rng = ctx.rng
+    if ctx.shard == 0:
+        recorded_urls(ctx)
     n = 40 if ctx.tier == "quick" else 6000
     m2 = util.map2d
     for t in range(n):
